@@ -2,6 +2,8 @@
 //   C10 results depend only on the latest inputs (reused object vs fresh object, bitwise; read-only queries do not change later answers)
 //   C13 spatial dimensions are solved independently (D-dimensional spline vs D one-dimensional splines; coordinate permutation)
 //   C14 time shift, translation, scaling, duration scaling, time reversal
+#include <algorithm>
+#include <numeric>
 #include "spline_gen.hpp"
 
 #ifndef VDIM
@@ -105,7 +107,25 @@ void c10_case(Tape& t, Ctx& ctx) {
       gen_data(t, c);
       if (have && t.chance(1, 8)) c = cur;        // update with inputs identical to the previous update (possibly through the other overload)
       else if (have && t.chance(1, 8)) { c = cur; c.t0 = gen_start_time(t); }  // identical except the start time
+      bool one_changed = false;
+      if (have && t.chance(1, 6)) {
+        // identical to the previous update except ONE ingredient (boundary argument / waypoints / durations), bit-equal otherwise
+        SplineCase<D> nw = c; nw.N = cur.N;
+        if (nw.T.size() != cur.T.size()) { nw.s = S; gen_durations(t, nw.N, wellscaled_ratio(S), nw.T, &nw.sigma, &nw.ratio, &nw.dur_shape, &nw.shape); gen_data(t, nw); }
+        c = cur;
+        switch (t.range(0, 2)) {
+          case 0: c.bc = nw.bc; if (t.chance(1, 3)) { c.bc = cur.bc; c.bc_field(t.flag(), t.range(1, 3))(t.range(0, D - 1)) += 0.5 / std::max(cur.sigma, 1e-3); } break;
+          case 1: c.P = nw.P; if (t.chance(1, 3)) { c.P = cur.P; c.P(t.range(0, cur.N), t.range(0, D - 1)) += 0.25; } break;
+          default: { c.T = nw.T; c.sigma = nw.sigma; c.ratio = nw.ratio; c.dur_shape = nw.dur_shape; c.shape = nw.shape;
+                     if (t.chance(1, 2) && cur.N >= 2) { c.T = cur.T; std::rotate(c.T.begin(), c.T.begin() + 1, c.T.end()); c.sigma = cur.sigma; c.ratio = cur.ratio; c.dur_shape = cur.dur_shape; c.shape = cur.shape; } } break;
+        }
+        double M = 0; for (int i = 0; i <= c.N; ++i) for (int d = 0; d < D; ++d) M = std::max(M, std::fabs(c.P(i, d)));
+        c.M = std::max(M, 1e-300);
+        one_changed = true;
+        ctx.label("update:one-ingredient-changed");
+      }
       bool by_points = t.flag();
+      if (one_changed && t.chance(3, 4)) by_points = cur_by_points;  // same overload: the unchanged ingredients arrive bit-equal
       std::vector<double> tp = c.time_points();
       // 1/6 of the updates omit the boundary argument: it defaults to zero boundary derivatives, whatever the object held before
       bool omit_bc = t.chance(1, 6);
